@@ -7,6 +7,7 @@ import (
 	"fmt"
 	"io"
 	"math/rand"
+	"net"
 	"net/http"
 	"net/http/httptest"
 	"strconv"
@@ -349,6 +350,10 @@ func (r *chunkReader) Read(p []byte) (int, error) {
 }
 
 func sendDirect(w http.ResponseWriter, payload io.Reader, errorShape bool, resetCh chan *interop.Reset) (error, bool) {
+	return sendDirectReq(w, payload, errorShape, resetCh, nil)
+}
+
+func sendDirectReq(w http.ResponseWriter, payload io.Reader, errorShape bool, resetCh chan *interop.Reset, request *interop.CancellableRequest) (error, bool) {
 	metrics := make(chan *interop.InvokeResponseMetrics, 4)
 	hdrs := map[string]string{"Content-Type": "application/octet-stream"}
 	if errorShape {
@@ -356,7 +361,7 @@ func sendDirect(w http.ResponseWriter, payload io.Reader, errorShape bool, reset
 	}
 	done := make(chan error, 1)
 	go func() {
-		done <- directinvoke.SendDirectInvokeResponse(hdrs, payload, http.Header{}, w, resetCh, metrics, nil, !errorShape, "inv-1")
+		done <- directinvoke.SendDirectInvokeResponse(hdrs, payload, http.Header{}, w, resetCh, metrics, request, !errorShape, "inv-1")
 	}()
 	select {
 	case err := <-done:
@@ -526,6 +531,58 @@ func runC17Reset(c *Ctx, d c17Desc) {
 					c.Check(w.Header().Get(directinvoke.FunctionErrorTypeTrailer) == want, "reset_error_type", "C17/reset/error-type", "error type trailer after reset", w.Header().Get(directinvoke.FunctionErrorTypeTrailer))
 				}
 			}
+		}
+	}
+	// the runtime's upload stalls in the middle of the body (a hung function): the copy sits in Read() on the
+	// runtime's connection and only closing that connection can end it - nothing in the harness unblocks it
+	for _, reason := range []string{"timeout", "failure"} {
+		for _, k := range []int{0, 1, 3} {
+			doReceive(diReq{MaxPayload: "-1", Rate: "67108864", Burst: "67108864"})
+			data := randBytes(r, 8000)
+			server, client := net.Pipe()
+			req, _ := http.NewRequest("POST", "http://runtime/response", nil)
+			req = req.WithContext(context.WithValue(req.Context(), interop.HTTPConnKey, server))
+			go client.Write(data[:k*1000]) // then silence
+			resetCh := make(chan *interop.Reset)
+			w := &recFlusher{}
+			res := make(chan error, 1)
+			fin := make(chan bool, 1)
+			go func() {
+				err, ok := sendDirectReq(w, server, false, resetCh, &interop.CancellableRequest{Request: req})
+				res <- err
+				fin <- ok
+			}()
+			dl := time.Now().Add(5 * time.Second)
+			for time.Now().Before(dl) && len(w.body()) < k*1000 {
+				time.Sleep(100 * time.Microsecond)
+			}
+			time.Sleep(2 * time.Millisecond)
+			rs := &interop.Reset{Reason: reason}
+			select {
+			case resetCh <- rs:
+			case <-time.After(5 * time.Second):
+				c.Check(false, "reset_accepted", "C17/reset/not-accepted", "the copy did not take the reset", nil)
+				client.Close()
+				return
+			}
+			acked := false
+			select {
+			case <-resetCh:
+				acked = true
+			case <-time.After(5 * time.Second):
+			}
+			n++
+			if !c.Check(acked, "copy_terminates", "C17/reset/hang-stalled-read", fmt.Sprintf("a reset (%s) while the copy was blocked reading the runtime's stalled upload (after %d bytes) was never acknowledged: the copy did not terminate", reason, k*1000), nil) {
+				client.Close()
+				return
+			}
+			err := <-res
+			<-fin
+			client.Close()
+			tr := w.Header().Get(directinvoke.EndOfResponseTrailer)
+			var te *interop.ErrTruncatedResponse
+			c.Check(tr == directinvoke.EndOfResponseTruncated && errors.As(err, &te), "truncated_on_reset", fmt.Sprintf("C17/reset/classification-stalled/%s", tr), fmt.Sprintf("reset during a stalled upload classified %q (%v)", tr, err), nil)
+			c.Check(bytes.Equal(w.body(), data[:k*1000]), "copy_stops_at_reset", "C17/reset/bytes-stalled", fmt.Sprintf("forwarded %d bytes, the runtime had sent %d", len(w.body()), k*1000), nil)
 		}
 	}
 	c.Counter("resets", n)
